@@ -127,6 +127,81 @@ func bodyShape(body *ast.BlockStmt) string {
 	return "calls=" + strings.Join(l, ",") + " exits=" + e
 }
 
+
+// callOrder: the order (source order = execution order inside the loop body) in which
+// VMExecutor.Execute reaches the calls that touch the ledger or read the clock.  The cast deadline
+// (a clock read compared with MaxCastBlockTime) must come before anything of the transaction has
+// touched the state: "…,Prepare,DEADLINE,IncreaseNonce,GetTxExecutor,BeforeExecute,…".
+func callOrder(body *ast.BlockStmt) string {
+	watch := map[string]bool{"prepare": true, "Sort": true, "Prepare": true, "IncreaseNonce": true, "GetTxExecutor": true, "BeforeExecute": true,
+		"Snapshot": true, "Execute": true, "RevertToSnapshot": true, "deductGasFee": true, "SetNonce": true, "GetLogs": true, "NewReceipt": true,
+		"removeUnusedValidator": true, "removeUnusedValidator1": true, "after": true, "IntermediateRoot": true}
+	var seq []string
+	ast.Inspect(body, func(n ast.Node) bool {
+		switch x := n.(type) {
+		case *ast.BinaryExpr:
+			// the deadline comparison
+			if x.Op == token.GTR {
+				if id, ok := x.Y.(*ast.Ident); ok && id.Name == "MaxCastBlockTime" {
+					seq = append(seq, "DEADLINE")
+				}
+			}
+		case *ast.BranchStmt:
+			seq = append(seq, strings.ToLower(x.Tok.String()))
+		case *ast.CallExpr:
+			if name := calleeName(x.Fun); watch[name] {
+				seq = append(seq, name)
+			}
+		}
+		return true
+	})
+	return strings.Join(seq, ",")
+}
+
+// hashWindow: the condition under which opBlockhash asks the node's chain index (GetHash): the
+// admissible heights are lower <= n < BlockNumber — strictly below the block being executed
+func hashWindow(fset *token.FileSet, body *ast.BlockStmt) string {
+	res := "no-GetHash-call"
+	ast.Inspect(body, func(n ast.Node) bool {
+		ifs, ok := n.(*ast.IfStmt)
+		if !ok {
+			return true
+		}
+		calls := false
+		ast.Inspect(ifs.Body, func(m ast.Node) bool {
+			if c, ok := m.(*ast.CallExpr); ok && calleeName(c.Fun) == "GetHash" {
+				calls = true
+			}
+			return true
+		})
+		if calls {
+			res = "GetHash iff " + condString(ifs.Cond)
+		}
+		return true
+	})
+	return res
+}
+
+func condString(e ast.Expr) string {
+	switch x := e.(type) {
+	case *ast.BinaryExpr:
+		return condString(x.X) + " " + x.Op.String() + " " + condString(x.Y)
+	case *ast.ParenExpr:
+		return "(" + condString(x.X) + ")"
+	case *ast.Ident:
+		return x.Name
+	case *ast.BasicLit:
+		return x.Value
+	case *ast.SelectorExpr:
+		return condString(x.X) + "." + x.Sel.Name
+	case *ast.CallExpr:
+		return condString(x.Fun) + "()"
+	case *ast.UnaryExpr:
+		return x.Op.String() + condString(x.X)
+	}
+	return fmt.Sprintf("%T", e)
+}
+
 // clockContext says what confines a clock reading: an enclosing condition that mentions the
 // "casting" situation, and/or being an argument of a logging call.
 func clockContext(stack []ast.Node) string {
@@ -174,6 +249,8 @@ func clockContext(stack []ast.Node) string {
 //           middleware types (LevelDB handles, LRU caches, sync.Map, gmap, plain map fields)
 //   ctx     reads / writes / deletes of entries of the executor's context map
 //   gwrite  assignments to package-level variables (the execution path should write none)
+//   chainread  look-ups into the node's own block index (GetHash / GetBlockHash / QueryBlockHeaderByHeight / GetBlockHeader)
+// plus two pinned facts: `order` (call order inside VMExecutor.Execute) and `bound` (opBlockhash's window)
 
 type fnInfo struct {
 	key     string
@@ -320,6 +397,9 @@ func procStatePass(fset *token.FileSet, imp types.Importer) []site {
 									}
 								}
 							}
+							if id != nil && (id.Name == "GetHash" || id.Name == "GetBlockHash" || id.Name == "QueryBlockHeaderByHeight" || id.Name == "GetBlockHeader") {
+								fi.sites = append(fi.sites, site{"chainread", rel, disp, id.Name})
+							}
 							// side store access: recv.field.Method(...)
 							if se, ok := x.Fun.(*ast.SelectorExpr); ok && ownerOK {
 								if fsel, ok := se.X.(*ast.SelectorExpr); ok {
@@ -390,6 +470,18 @@ func procStatePass(fset *token.FileSet, imp types.Importer) []site {
 		for c := range fi.callees {
 			if !reach[c] {
 				todo = append(todo, c)
+			}
+		}
+		// the interpreter dispatches through the jump table (function values): once Run is
+		// reachable so is every instruction / gas / memory function of package vm
+		if strings.HasSuffix(k, "/src/vm.EVMInterpreter.Run") {
+			for c := range funcs {
+				if i := strings.Index(c, "/src/vm."); i >= 0 {
+					nm := c[i+len("/src/vm."):]
+					if !strings.Contains(nm, ".") && (strings.HasPrefix(nm, "op") || strings.HasPrefix(nm, "gas") || strings.HasPrefix(nm, "memory") || strings.HasPrefix(nm, "make")) && !reach[c] {
+						todo = append(todo, c)
+					}
+				}
 			}
 		}
 		for n := range fi.byName {
@@ -477,6 +569,12 @@ func main() {
 					}
 					if fd.Recv != nil && len(fd.Recv.List) > 0 {
 						fn = strings.TrimPrefix(exprString(fset, fd.Recv.List[0].Type), "*") + "." + fn
+					}
+					if rel == "src/core/vmexecutor.go" && fn == "VMExecutor.Execute" {
+						sites = append(sites, site{"order", rel, fn, callOrder(fd.Body)})
+					}
+					if rel == "src/vm/instructions.go" && fn == "opBlockhash" {
+						sites = append(sites, site{"bound", rel, fn, hashWindow(fset, fd.Body)})
 					}
 					usesFloat := false
 					var stack []ast.Node
